@@ -1,5 +1,6 @@
 import RjModel.Model.Settings
 import RjModel.Generated.Defaults
+import RjModel.Generated.PathDesc
 /-! # C16 — effective settings follow the documented precedence and defaults
 
 `Generated.fieldRules` is re-extracted from `resolve_spec` / `impl Default for SyncSpec` on every run;
@@ -140,6 +141,13 @@ example :
     (match resolveSpec k c doc with
      | .ok s => decide (s = ⟨"", "", "", "", .prompt, [⟨"a", "b", ["-x"], .error, .proceed, .skip, .error, .error⟩]⟩)
      | .error _ => false) = true := by
+  decide
+
+/-- **The drive-letter special case of `[[user@]host:]path` is the one the model has**: the guard of that arm of
+`RemotePathDesc::from_str`, read off the source on every run, is "one character before the first colon, and after it nothing or a
+backslash" - so `h:/abs/path` names a path on host `h` (and the function splits exactly twice: at the first `:` and the first `@`). -/
+theorem C16_path_desc_drive_guard :
+    Generated.pathDescDriveGuard = "A.len()==1&&(B.is_empty()||B.starts_with('\\\\'))" ∧ Generated.pathDescSplits = 2 := by
   decide
 
 end Rj.C16
